@@ -2,6 +2,7 @@
    (both layers) no entry point of the model returns `Res.panic`, provided the output buffer has room for a fixed
    header (capacity ≥ 4, which the encoder itself demands). -/
 import GV.Proofs.EngineClose
+import GV.Proofs.EngineState
 namespace GV
 
 /-- the result is not a panic -/
@@ -923,9 +924,8 @@ theorem handleData_np (e : Engine) (bs : Bytes) (hinv : Inv e) (hx : Extra false
     · exact Res.NP.err _
     · rename_i hgate
       simp only []
-      split
-      · exact Res.NP.err _
-      · refine handlePackets_np _ _ (hinv.of_eq rfl rfl) hnd hx ?_
+      have hn := handlePackets_np (decodeBytes { version := e.cfg.version, maxSize := e.inboundMax } e.dec bs).packets
+        ({ e with dec := (decodeBytes { version := e.cfg.version, maxSize := e.inboundMax } e.dec bs).dec } : Engine) (hinv.of_eq rfl rfl) hnd hx (by
         intro hpc
         have hpc' : e.state = .pendingConnack := hpc
         have : ¬ ((e.state == .pendingConnack && e.connectUnsent) = true) := hgate
@@ -933,7 +933,15 @@ theorem handleData_np (e : Engine) (bs : Bytes) (hinv : Inv e) (hx : Extra false
         show e.connectUnsent = false
         cases hcu : e.connectUnsent with
         | false => rfl
-        | true => rw [hcu] at this; exact absurd rfl this
+        | true => rw [hcu] at this; exact absurd rfl this)
+      generalize ({ e with dec := (decodeBytes { version := e.cfg.version, maxSize := e.inboundMax } e.dec bs).dec } : Engine).handlePackets (decodeBytes { version := e.cfg.version, maxSize := e.inboundMax } e.dec bs).packets = x at hn ⊢
+      obtain ⟨e2, r2⟩ := x
+      simp only [] at hn ⊢
+      split
+      · exact hn
+      · split
+        · exact Res.NP.err _
+        · exact Res.NP.ok
 
 /-! ### service: seating the next operation -/
 
@@ -1260,19 +1268,30 @@ theorem serviceCore_np (e : Engine) (cap prefill : Nat) (hcap : 4 ≤ cap) (hinv
     · exact serviceQueue_np e false cap prefill hcap hok hb h (fun hh => by cases hh)
   | connected =>
     simp only []
-    have hka := serviceKeepAlive_hk e (by rw [hst]; decide)
-    have hoka := (hka.stp.pres hok).1
-    have ha := hka.stp.keeps hok hb
+    have hk0 := processAckTimeouts_hk (e.timeouts.length + 1) e
+    have hinv0 := (hk0.inv ⟨hok, hb, hD, hS⟩ (by rw [hst]; decide)).1
+    have x0 := processAckTimeouts_extra (e.timeouts.length + 1) e h (by rw [hst]; decide)
+    have n0 := processAckTimeouts_np (e.timeouts.length + 1) e hok
+    have hst0 : (Engine.processAckTimeouts (e.timeouts.length + 1) e).1.state = .connected := by
+      rw [processAckTimeouts_state _ e (by rw [hst]; decide)]; exact hst
+    generalize Engine.processAckTimeouts (e.timeouts.length + 1) e = p0 at hk0 hinv0 x0 n0 hst0 ⊢
+    obtain ⟨e0, r0⟩ := p0
+    simp only [] at hinv0 x0 n0 hst0 ⊢
+    split
+    · exact n0
+    have hka := serviceKeepAlive_hk e0 (by rw [hst0]; decide)
+    have hoka := (hka.stp.pres hinv0.1).1
+    have ha := hka.stp.keeps hinv0.1 hinv0.2.1
     have sva := hka.sv
-    have xa := serviceKeepAlive_extra e ⟨hok, hb, hD, hS⟩ h
-    have na := serviceKeepAlive_np e hb hst
-    generalize e.serviceKeepAlive = ka at hka hoka ha sva xa na ⊢
+    have xa := serviceKeepAlive_extra e0 hinv0 x0
+    have na := serviceKeepAlive_np e0 hinv0.2.1 hst0
+    generalize e0.serviceKeepAlive = ka at hka hoka ha sva xa na ⊢
     obtain ⟨ea, ra⟩ := ka
     simp only [] at hoka ha sva xa na ⊢
     split
     · exact na
     · have hsta : ea.state ≠ .pendingConnack := fun hh => by
-        have := sva.pc hh; rw [hst] at this; cases this
+        have := sva.pc hh; rw [hst0] at this; cases this
       have nb := serviceQueue_np ea true cap prefill hcap hoka ha xa (fun _ => hsta)
       have okb := ((serviceQueue_pres ea true cap prefill) hoka).1
       generalize ea.serviceQueue true cap prefill = qb at nb okb ⊢
